@@ -160,6 +160,20 @@ pub(crate) fn render_vardct<S: Sample>(
     let lf_groups = &mut cache.lf_groups;
     let group_dim = frame_header.group_dim();
 
+    // Wait for the LF frame on this thread, not in a thread pool task: a pool thread that is in the
+    // middle of rendering the LF frame might pick that task up and wait for itself.
+    let lf_frame_image = lf_frame
+        .map(|x| {
+            tracing::trace_span!("Copy LFQuant").in_scope(|| -> Result<_> {
+                let lf_frame = std::sync::Arc::clone(&x.image).run_with_image()?;
+                let mut lf_frame = lf_frame.blend(None, pool)?.try_clone()?;
+                // LF frame coded with Modular may still have integer samples.
+                lf_frame.convert_modular_color(frame.image_header().metadata.bit_depth)?;
+                Ok(lf_frame)
+            })
+        })
+        .transpose()?;
+
     let result = std::sync::RwLock::new(Result::Ok(()));
     let (mut fb, lf_xyb) = pool.scope(|scope| -> Result<_> {
         if hf_global.is_none() {
@@ -185,14 +199,8 @@ pub(crate) fn render_vardct<S: Sample>(
             )
         })?;
 
-        let lf_xyb = if let Some(x) = lf_frame {
-            tracing::trace_span!("Copy LFQuant").in_scope(|| -> Result<_> {
-                let lf_frame = std::sync::Arc::clone(&x.image).run_with_image()?;
-                let mut lf_frame = lf_frame.blend(None, pool)?.try_clone()?;
-                // LF frame coded with Modular may still have integer samples.
-                lf_frame.convert_modular_color(frame.image_header().metadata.bit_depth)?;
-                Ok(lf_frame)
-            })?
+        let lf_xyb = if let Some(lf_frame_image) = lf_frame_image {
+            lf_frame_image
         } else {
             let mut lf_xyb = lf_xyb.unwrap();
 
